@@ -74,11 +74,42 @@ def cases(draw, tier):
     cfg = {"type": draw(gen.types_for(ss["kind"])), "threads": draw(gen.threads)}
     cfg["gpo"], cfg["gpe"], cfg["tgpe"] = draw(gen.penalties())
     return {"names": names, "seqs": seqs, "cfg": cfg, "entry": entry, "kind": ss["kind"], "shape": ss["shape"],
-            "final_newline": draw(st.sampled_from([True, True, True, False]))}
+            "final_newline": draw(st.sampled_from([True, True, True, False])),
+            # the input file may already contain gap characters / punctuation (an existing alignment, '*' terminators):
+            # none, sprinkled everywhere, only in the records after a drawn index, or a trailing '*' on some records
+            "ingaps": draw(st.sampled_from(["none", "none", "none", "random", "late", "star"])),
+            "ingap_seed": draw(st.integers(0, 2 ** 16)), "ingap_from": draw(st.integers(0, 70))}
 
 
 def strategy(tier):
     return cases(tier)
+
+
+def present_with_gaps(case):
+    """the records as they are written into the input file (gap characters are not residues)"""
+    import random
+    seqs = case["seqs"]
+    mode = case.get("ingaps", "none")
+    if mode == "none":
+        return seqs
+    rnd = random.Random(case.get("ingap_seed", 0))
+    start = min(case.get("ingap_from", 0), max(0, len(seqs) - 1)) if mode == "late" else 0
+    out = []
+    for i, s in enumerate(seqs):
+        if not s or i < start:
+            out.append(s)
+        elif mode == "star":
+            out.append(s + ("*" if rnd.random() < 0.5 or i == len(seqs) - 1 else ""))
+        else:
+            r = []
+            for c in s:
+                if rnd.random() < 0.1:
+                    r.append(rnd.choice("-.~") * rnd.randint(1, 3))
+                r.append(c)
+            if rnd.random() < 0.3:
+                r.append("-" * rnd.randint(1, 4))
+            out.append("".join(r))
+    return out
 
 
 def _strip_log(text):
@@ -108,6 +139,8 @@ def classes_of(case, rows):
         c.append("gapped")
     if not case.get("final_newline", True):
         c.append("no_final_newline")
+    if case.get("ingaps", "none") != "none" and case["entry"] != "arr":
+        c.append("input_has_gap_chars=" + case["ingaps"])
     if any(" " in n or ":" in n for n in case["names"]):
         c.append("rich_names")
     return c
@@ -128,7 +161,7 @@ def check(case):
             out_names, rows, alnlen = None, r["rows"], r["alnlen"]
         else:
             wd = kal.runner.workdir()
-            body = kal.fasta_bytes(names, seqs, width=0)
+            body = kal.fasta_bytes(names, present_with_gaps(case), width=0)
             if not case.get("final_newline", True) and seqs[-1]:
                 body = body.rstrip(b"\n")      # a file whose last byte is a residue
             fp = wd.write(body, ".fa")
